@@ -252,8 +252,18 @@ impl NativeFunctionCall {
             return Ok(self.call_list_increment_operation(params));
         }
 
-        let v1 = params[0].clone().into_any().downcast::<Value>().unwrap();
-        let v2 = params[1].clone().into_any().downcast::<Value>().unwrap();
+        let not_a_value =
+            |_| StoryError::InvalidStoryState("RTObject of type Value expected.".to_owned());
+        let v1 = params[0]
+            .clone()
+            .into_any()
+            .downcast::<Value>()
+            .map_err(not_a_value)?;
+        let v2 = params[1]
+            .clone()
+            .into_any()
+            .downcast::<Value>()
+            .map_err(not_a_value)?;
 
         // And/or with any other type requires coercion to bool
         if (self.op == Op::And || self.op == Op::Or)
